@@ -380,9 +380,9 @@ def contexts(tier):
         (HQ, 3, 0, True),
         (HQ, 2, 66, False),
         (LD, 2, 64, False),
+        (LD, 2, 0, False),
         (LD, 3, 1, True),
         (HQ, 1, 0, False),
-        (LD, 2, 0, False),
         (HQ, 3, 3, False),
     ]
     if tier == "thorough":
@@ -511,7 +511,7 @@ def run(ctx):
     evs = events(two_deviations=not quick)
     cs = contexts(ctx.tier)
     if quick:
-        cs = cs[:8] + [cs[8 + (ctx.seed % (len(cs) - 8))]]
+        cs = cs[:9] + [cs[9 + (ctx.seed % (len(cs) - 9))]]
     total = Tally()
     per_ctx = {}
     nstates_total = 0
